@@ -1,4 +1,6 @@
 """C04 generator: build/exit interleavings over several resources, inbound and outbound, batches, rules that block some."""
+import importlib.util as _ilu, os as _os
+_ms = _ilu.spec_from_file_location("worldmix", _os.path.join(_os.path.dirname(__file__), "worldmix.py")); MIX = _ilu.module_from_spec(_ms); _ms.loader.exec_module(MIX)
 import importlib.util, os
 _s = importlib.util.spec_from_file_location("worldgen", os.path.join(os.path.dirname(__file__), "worldgen.py")); W = importlib.util.module_from_spec(_s); _s.loader.exec_module(W)
 
@@ -78,6 +80,12 @@ def gen_case(rng):
     return ops
 
 
-def gen(rng, tier):
+def gen_own(rng, tier):
     n = 400 if tier == "quick" else 20000
     return [gen_case(rng) for _ in range(n)]
+
+
+def gen(rng, tier):
+    """the property's own streams, with every 8th case taken from the shared mixed-world stream (gen/worldmix.py)"""
+    cases = gen_own(rng, tier)
+    return [c if i % 8 != 7 else MIX.gen_mix(rng) for i, c in enumerate(cases)]
